@@ -28,8 +28,10 @@ THEOREMS = [
     "C33.foreign_direct_cancel_leaks",
     "Thr2Aio.fixed_reach_ok",
 ]
-RULE = ("cases = scheduler flavour (AsyncIOScheduler / thread-safe) x immediate|relative schedule x who disposes (loop "
-        "callback / other thread while the loop runs / thread while the loop is not running) x delay x gap between "
+RULE = ("cases = scheduler flavour (AsyncIOScheduler / thread-safe) x immediate|relative schedule x how it was scheduled (loop "
+        "callback / other thread while the loop runs / before the loop started) x who disposes (loop callback / other "
+        "thread while the loop runs / thread while the loop is not running: never started, or stopped after running and "
+        "restarted after the return) x delay x gap between "
         "schedule and dispose (before, at, after the due time) x schedule (start thread + <=3 preemptions at generated "
         "yield points); non-trivial = a preemption switched threads, or the dispose happened while the loop had work of "
         "this action pending; distinct by canonical JSON. search (coverage.search_*): exhaustive enumeration of <=2 "
@@ -55,23 +57,29 @@ LEVEL_NOTE = ("Model is of the repaired `_on_self_loop_or_not_running` (fix: C33
               "one disposing thread. asyncio internals (heap order, selector) are abstracted to ready FIFO + due flag; "
               "schedule_absolute is covered only as schedule_relative (it delegates).")
 
-CFGS = [("plain", "soon", "onLoop"), ("plain", "rel", "onLoop"), ("plain", "soon", "notRunning"), ("plain", "rel", "notRunning"),
-        ("ts", "soon", "onLoop"), ("ts", "rel", "onLoop"), ("ts", "soon", "foreign"), ("ts", "rel", "foreign"),
-        ("ts", "soon", "notRunning"), ("ts", "rel", "notRunning")]
+# (flavour, kind, how scheduled, who disposes).  AsyncIOScheduler is not thread-safe: it is scheduled on the loop
+# thread or before the loop starts and disposed on the loop thread or while the loop is not running.
+CFGS = ([("plain", k, sm, m) for k in ("soon", "rel") for sm in ("onLoop", "pre") for m in ("onLoop", "notRunning")]
+        + [("ts", k, sm, m) for k in ("soon", "rel") for sm in ("onLoop", "foreign", "pre")
+           for m in ("onLoop", "foreign", "notRunning")])
 
 
-def scenario(fl, kind, mode, delay, gap):
-    return {"fl": fl, "kind": kind, "mode": mode, "delay": delay, "gap": gap}
+def scenario(fl, kind, smode, mode, delay, gap):
+    return {"fl": fl, "kind": kind, "smode": smode, "mode": mode, "delay": delay, "gap": gap}
+
+
+def smode_of(case):
+    return case.get("smode") or {"onLoop": "onLoop", "foreign": "foreign", "notRunning": "pre"}[case["mode"]]
 
 
 def cases(rng, tier):
     n = fw.tier_scale(tier, 400, 4000)
     base = {}
     for _ in range(n):
-        fl, kind, mode = rng.choice(CFGS + [("ts", "rel", "foreign")] * 4 + [("ts", "soon", "foreign")] * 2)
+        fl, kind, smode, mode = rng.choice(CFGS + [c for c in CFGS if c[0] == "ts" and c[1] == "rel" and c[3] != "onLoop"] * 3)
         delay = rng.choice([1, 2, 3])
-        gap = rng.choice([0, 0, delay - 1, delay, delay + 1]) if mode != "notRunning" else 0
-        sc = scenario(fl, kind, mode, delay, max(0, gap))
+        gap = rng.choice([0, 0, delay - 1, delay, delay + 1]) if not (mode == "notRunning" and smode == "pre") else 0
+        sc = scenario(fl, kind, smode, mode, delay, max(0, gap))
         k = fw.key(sc)
         if k not in base:
             base[k] = A.run_case(dict(sc, first=0, pre=[]))["steps"]
@@ -107,7 +115,8 @@ def impl(case):
 
 def model_request(case):
     r = _run(case)
-    return {"op": "aio_replay", "fl": case["fl"], "kind": case["kind"], "mode": case["mode"], "test": "fixed",
+    return {"op": "aio_replay", "fl": case["fl"], "kind": case["kind"], "smode": smode_of(case), "mode": case["mode"],
+            "test": "fixed",
             "sched": [e[0] for e in r["events"]]}
 
 
@@ -159,7 +168,7 @@ def nontrivial(case, out):
 
 
 def bucket(case, out):
-    yield f"cfg:{case['fl']}/{case['kind']}/{case['mode']}"
+    yield f"cfg:{case['fl']}/{case['kind']}/{smode_of(case)}->{case['mode']}"
     yield "started" if out["starts"] else "never-started"
     labels = [e[1] for e in out["events"]]
     for l in ("test-direct", "test-marshal", "pop1-skip", "pop2-skip", "collect2"):
@@ -192,10 +201,10 @@ def extra(rng, tier):
     t0 = time.time()
     quick = tier != "thorough"
     scs = []
-    for fl, kind, mode in CFGS:
-        gaps = [0] if mode == "notRunning" else ([0, 1, 3] if kind == "rel" else [0, 1])
+    for fl, kind, smode, mode in CFGS:
+        gaps = [0] if (mode == "notRunning" and smode == "pre") else ([0, 1, 3] if kind == "rel" else [0, 1])
         for g in gaps:
-            scs.append(scenario(fl, kind, mode, 2, g))
+            scs.append(scenario(fl, kind, smode, mode, 2, g))
     # the two threads only interact when another thread disposes while the loop runs: deep enumeration there;
     # for dispose-on-loop / loop-not-running the user thread merely posts callbacks (single preemptions suffice)
     foreign = [sc for sc in scs if sc["mode"] == "foreign"]
